@@ -30,7 +30,9 @@ def run_pipeline(P, tier, seed, replay=None):
             notes.append("translator %s: %s" % (k, v))
 
     # 2. prove
-    ok, out = dv.coq_make(["props/%s.vo" % P.id])
+    import glob as _glob
+    model_targets = sorted("Model/" + os.path.basename(f) + "o" for f in _glob.glob(os.path.join(dv.COQ, "Model", "*.v")))
+    ok, out = dv.coq_make(model_targets + ["props/%s.vo" % P.id])
     if not ok:
         print(out[-3000:])
         print("BROKEN-CHECK: the Coq development does not build (this is a defect of /verif, not of /repo)")
